@@ -197,6 +197,26 @@ std::vector<std::pair<std::string, std::string>> vg_reports(const std::string &t
 
 //--------------------------------------------------------------------------------------------------------------
 // parse / memcheck
+void count_slack(const c15gen::SlackInfo &si) {
+    vh::counter("cname_rdlength_longer_than_name", si.slack_cnames);
+    vh::counter("cname_slack_shaped_like_a_record", si.shaped_like_a_record);
+    vh::counter("cname_slack_shaped_like_a_record_header", si.shaped_like_a_header);
+    vh::counter("cname_slack_zeros", si.zeros);
+    vh::counter("cname_slack_random_bytes", si.random);
+    vh::counter("cname_slack_after_compression_pointer", si.after_pointer);
+    vh::counter("records_after_slack_cname", si.records_after_slack);
+    vh::counter("unknown_type_records_with_record_shaped_rdata", si.control_unknown_shaped);
+}
+
+//! harness self-check: the reference must read out of a generated reply exactly what the generator put in
+void check_ref_against_generator(const c15gen::Reply &R, bool want_strict, uint64_t idx) {
+    c15ref::Info I = c15ref::classify(R.b.data(), R.b.size());
+    bool same = (want_strict ? I.strict : (I.framed && !I.strict)) && I.a.size() == R.ea.size() && I.c.size() == R.ec.size();
+    for (size_t i = 0; same && i < I.a.size(); ++i) same = I.a[i].ttl == R.ea[i].ttl && memcmp(I.a[i].ip, R.ea[i].ip, 4) == 0;
+    for (size_t i = 0; same && i < I.c.size(); ++i) same = I.c[i].ttl == R.ec[i].ttl && I.c[i].name == R.ec[i].name;
+    if (!same) { fprintf(stderr, "VH-FATAL: reference-disagrees-with-generator why=%s case=%llu\n", I.why.c_str(), (unsigned long long)idx); abort(); }
+}
+
 struct ParseStats { unsigned n_dg = 0, n_isolated = 0; bool strict_with_records = false; };
 
 void run_datagram_(Ctx &c, vh::Rng &r, const c15gen::Dg &dg, const std::string &domain, bool memcheck, ParseStats &ps);
@@ -308,16 +328,20 @@ void parse_case(uint64_t idx, vh::Rng &r, bool memcheck) {
     c15gen::Reply base = c15gen::make_reply(r, 0, domain);
     vh::Sig sig;
     sig.add(std::string(base.b.begin(), base.b.end()));
-    // the reference must read out of the generated reply exactly what the generator put in (harness self-check)
-    {
-        c15ref::Info I = c15ref::classify(base.b.data(), base.b.size());
-        bool same = I.strict && I.a.size() == base.ea.size() && I.c.size() == base.ec.size();
-        for (size_t i = 0; same && i < I.a.size(); ++i) same = I.a[i].ttl == base.ea[i].ttl && memcmp(I.a[i].ip, base.ea[i].ip, 4) == 0;
-        for (size_t i = 0; same && i < I.c.size(); ++i) same = I.c[i].ttl == base.ec[i].ttl && I.c[i].name == base.ec[i].name;
-        if (!same) { fprintf(stderr, "VH-FATAL: reference-disagrees-with-generator why=%s case=%llu\n", I.why.c_str(), (unsigned long long)idx); abort(); }
-    }
+    check_ref_against_generator(base, true, idx);
     c15gen::add(dgs, base.b, "strict");
     for (int i = 0; i < 3; ++i) c15gen::add(dgs, c15gen::make_reply(r, 0, domain).b, "strict");
+    // CNAME records whose RDLENGTH exceeds the encoded name (slack bytes, some shaped like records), real records behind them
+    for (int i = 0; i < 4; ++i) {
+        c15gen::SlackInfo si;
+        c15gen::Reply sl = c15gen::make_slack_reply(r, 0, domain, si);
+        check_ref_against_generator(sl, false, idx);
+        count_slack(si);
+        c15gen::add(dgs, sl.b, "cname-slack");
+        if (i == 0) {   // and a few cuts of it: inside the slack, inside the record behind it
+            for (int k = 0; k < 6; ++k) c15gen::add(dgs, Bytes(sl.b.begin(), sl.b.begin() + 12 + r.below(sl.b.size() - 12)), "cname-slack-cut");
+        }
+    }
     c15gen::make_variants(base, r, dgs, !memcheck && r.chance(1, 2));
     {
         c15gen::Reply odd = c15gen::make_odd_reply(r, 0, domain);
@@ -505,6 +529,14 @@ struct Hist {
                 ++n_replies;
                 send(big, srv, "oversized");
                 if (r.chance(1, 2)) { vh::counter("udp_oversized_followed_by_normal_reply"); send(c15gen::make_reply(r, id, dom).b, int(r.below(c.nsrv)), "strict-after-oversized"); }
+                return;
+            }
+            if (r.chance(1, 10)) {   // CNAME records with slack behind the name, real records behind them
+                c15gen::SlackInfo si;
+                c15gen::Reply sl = c15gen::make_slack_reply(r, L.id, L.domain, si);
+                count_slack(si);
+                ++n_replies;
+                send(sl.b, srv, "cname-slack");
                 return;
             }
             unsigned k = r.below(100);
